@@ -19,6 +19,10 @@ var overrideSites = []string{
 	`<form action="{{.}}"></form>`, `<iframe srcdoc="{{.}}"></iframe>`, `<a href="{{.}}" rel="{{.}}">x</a>`, `<img src="{{.}}" alt="{{.}}">`,
 }
 
+// pipeSites end in one of text/template's predefined escapers, which the engine takes for
+// equivalent to its own sanitizer.
+var pipeSites = []string{`<b>{{. | html}}</b>`, `<p title="{{. | html}}">x</p>`, `<textarea>{{. | html}}</textarea>`, `<a href="/x?q={{. | urlquery}}">x</a>`, `<b>{{html .}}</b>`, `<a href="{{. | urlquery}}">x</a>`}
+
 func identsOf(n parse.Node, into map[string]bool) {
 	switch n := n.(type) {
 	case *parse.ListNode:
@@ -78,6 +82,7 @@ func sanitizerOverride(c *core.Ctx) {
 		report(c, kase{Clause: "override", Item: "discovery"}, "no function name was found in the rewritten pipelines of %d one-action templates: the probe cannot see the sanitizers", len(overrideSites))
 		return
 	}
+	sorted = append(sorted, "html", "urlquery")
 	evil := payload(7)
 	fm := func(name string) template.FuncMap {
 		return template.FuncMap{name: func(args ...interface{}) string { return evil }}
@@ -86,7 +91,11 @@ names:
 	for _, name := range sorted {
 		for _, when := range []string{"before Parse", "after Parse", "after the first execution"} {
 			refusedAll := true
-			for _, site := range overrideSites {
+			sites := overrideSites
+			if name == "html" || name == "urlquery" {
+				sites = pipeSites
+			}
+			for _, site := range sites {
 				c.Eval(1)
 				var out string
 				refused := false
